@@ -1,6 +1,6 @@
-SPECIFICATION Spec
+SPECIFICATION SimSpec
 CONSTANTS
   Descr <- McDescr
   CH <- SimCH
   MaxCalls = 6
-CONSTRAINT EmitSim
+CONSTRAINT EmitMixed
